@@ -295,7 +295,7 @@ REGISTRY["C19"] = {
 }
 REGISTRY["C07"] = dict(REGISTRY["C19"], **{
     "level_text": ("the multi-party half of C07 inside the network simulation: clients submit, through the byte-level P2P path, generated transactions that are "
-                   "valid or invalid in exactly one respect (8 defect kinds) at chain states that evolve under the run; (1) a generator-invalid transaction is "
+                   "valid or invalid in exactly one respect (11 defect kinds) at chain states that evolve under the run; (1) a generator-invalid transaction is "
                    "never pooled by any node and never on chain; (2) for signature and 3-of-4 multi-signature witnesses the calculator's network fee is accepted "
                    "by the full admission pipeline and one unit less is rejected (fresh scratch pool); (3) every block a primary proposes from its real pool, and "
                    "a block the harness packs from a validator's pool in pool order under per-run limits at the end, is accepted by every ledger after "
@@ -308,7 +308,8 @@ REGISTRY["C07"] = dict(REGISTRY["C19"], **{
     "rule": _NET_RULE + "C07: 4-16 client transactions, one third of them with exactly one defect; MaxTransactionsPerBlock drawn 0(default)-3. Non-trivial/distinct as for C19.",
     "probes": ["client_tx", "tx_pooled", "tx_not_pooled", "fee_threshold_checked/signature", "fee_threshold_checked/multisig", "block_packed_from_pool", "packed_txs",
                "tx_request_answered", "blocks_committed", "packed_txs_verified_from_scratch"] + ["defective_tx/" + d for d in ["expired", "valid-until-too-far", "already-on-chain", "bad-witness",
-               "fee-one-short", "highpriority-without-committee", "notvalidbefore-in-future", "sender-cannot-pay", "cosigned-by-blocked-account"]],
+               "fee-one-short", "highpriority-without-committee", "notvalidbefore-in-future", "sender-cannot-pay", "cosigned-by-blocked-account",
+               "conflicts-hash-named-twice"]],
 })
 REGISTRY["C17"] = dict(REGISTRY["C19"], **{
     "level_text": ("only the clause of C17 that has a wire path in it: inside the network simulation 3-18% of all messages are corrupted (bit flip, truncation, trailing "
